@@ -1482,6 +1482,10 @@ func (is *iterScanner) Next() bool {
 	if iter.pos >= iter.numRows {
 		if iter.next != nil {
 			is.iter = iter.next.fetch()
+			// the cell buffer follows the metadata of the page being read
+			if n := len(is.iter.meta.columns); n != len(is.cols) {
+				is.cols = make([][]byte, n)
+			}
 			return is.Next()
 		}
 		return false
